@@ -300,7 +300,7 @@ def check_accessors(chk, prog, sim):
         chk.discharge(key)
 
 
-def check_arith(chk, prog, sim):
+def check_arith(chk, prog, sim, tag=""):
     names = state_fields(prog)
     n = 0
     for imp in prog.impls:
@@ -310,7 +310,7 @@ def check_arith(chk, prog, sim):
         it = [i for i in imp["items"] if i["name"] == Q.ALLOPS[tr]]
         fn = prog.fns[it[0]["did"]]
         n += 1
-        key = "O:" + imp["trait_ref"]
+        key = "O:" + imp["trait_ref"] + tag
         chk.obligation(key, "component-wise arithmetic of " + imp["trait_ref"])
         chk.analysed(fn["pretty"])
         st = S.State()
@@ -373,7 +373,7 @@ def check_arith(chk, prog, sim):
             ok = False
         if ok:
             chk.discharge(key)
-    if n < 18:
+    if n < 18 and not tag:
         chk.violation("floor", "C14.arith", "expected >= 18 operator impls on State/Command, found %d" % n)
 
 
@@ -394,6 +394,13 @@ def run(chk):
     chk.configs.append("K4")
     before = len(chk.violations)
     check_setters(chk, p4, S.Sim(p4), "@K4")
+    for v in chk.violations[before:]:
+        v["key"] += "@K4"
+        v["what"] = "[dimension checking compiled out] " + v["what"]
+    # adding / subtracting commands of different kinds panics in every configuration (a kind check delegated to the unit check
+    # vanishes with the units)
+    before = len(chk.violations)
+    check_arith(chk, p4, S.Sim(p4), "@K4")
     for v in chk.violations[before:]:
         v["key"] += "@K4"
         v["what"] = "[dimension checking compiled out] " + v["what"]
